@@ -430,6 +430,8 @@ func TestRegRoundTrip(t *testing.T) {
 					if r := recover(); r != nil {
 						row["outcome"] = "panic"
 						row["panic"] = fmt.Sprint(r)
+						buf := make([]byte, 4096)
+						row["stack"] = firstFrames(string(buf[:runtimeStack(buf)]))
 					}
 				}()
 				ww := m.encode(v)
